@@ -2,6 +2,6 @@
 
 package container
 
-func verifMsg(dir string, e any) {}
+func verifMsg(s *socket, dir string, e any) {}
 
 func verifPoint(name string) {}
